@@ -20,6 +20,10 @@ CHECKS = {
          "Exploration: EMA/DMA/TMA/DEMA/TEMA/RMA/WSMA/TSI/Vidya/TR/cumulative Integral and ADI at every length (TSI: sampled (short,long) pairs) on the ten stream classes, HeikinAshi's open/close recursion on five candle classes. The radius of the recursive references decays with the signal (e' = (1-a)e + C eps(|x|+|y|)), so a guard that swallows small denominators or a stale state after a flat stretch is outside the allowance; Vidya's no-movement rule is checked exactly on dyadic streams.", "§4 C03"),
  "C04": ("runtime monitoring: exact model oracle (max/min/age of newest extremum/median of the model window, ==) on exhaustive short sequences over tie/signed-zero alphabets and hostile streams for every length; unsafe build with bounds hook; Miri",
          "Exploration with exhaustive sub-spaces: all 4^9 (4^11) sequences over three 4-symbol alphabets ({-0,+0,1,2}, {0,1,2,3}, {-1,-0,+0,1}) for every length 1..=6 - the selection algorithms only compare, so this enumerates every order/tie/zero-sign pattern around short windows - plus plateau/tie/grid/ramp/mixed-sign streams for every length 1..=254. No tolerance. Re-run on the unsafe_performance build (SMM's raw copy under the bounds hook) and a reduced set under Miri.", "§4 C04"),
+ "C05": ("runtime monitoring: reference-model oracle - one independent reference per indicator, composed from the method references in Approx (midpoint+radius) arithmetic, compared with every raw value at every step",
+         "Exploration: all 36 indicators x 24 (200) generated configurations (every MA kind where one is configurable, boundary periods, all sources, float parameters over their range) x 4 (7) candle classes (walk with gaps/doji, exactly flat stretches, zero-volume bars and stretches with huge volumes, exact grid, trends, 700-step ramps) x 400 (1500) steps. The value order in the result is part of the check. Steps where the formula is undefined within the allowance (ambiguous zero denominators) are exempt and counted; evidence reports exempt fractions and max error/radius per slot. Where documentation and code demonstrably disagree the code's rule is what is checked and the disagreement is reported under its own signature.", "§4 C05"),
+ "C06": ("runtime monitoring: three-valued signal oracle - each documented signal rule evaluated on the reference values (crossings, zones, reversals, latches, proportional strengths); Exempt when the deciding quantity is within its radius of the threshold",
+         "Exploration: same executions as C05 plus streams with 1/2/13 leading copies of the first candle (signal prefix-invariance of C08). Every one of the ~60 signal slots is judged on non-exempt steps: fired without condition / silent although the condition holds / wrong direction / wrong proportional strength (+-1 step at a rounding boundary). Coverage cells record, per slot, how often it fired each way and stayed silent.", "§4 C06"),
  "C07": ("runtime monitoring: long-stream monitors - every step of 1e6..1e7-step streams with regime changes checked against the from-scratch / recurrence references, exact models for selections and detectors, fresh-instance-primed-with-the-last-window differential at checkpoints, position-independent tolerance on exact-grid streams",
          "Exploration: every arithmetic method at a small and a large length (rotated by seed; thorough: three each) over 1e6 (1e7) / 2e5 (2e6) steps through a repeating regime schedule (volatile, volatile->flat->volatile, scale jumps 1e-6..1e6, dyadic grid, plateaus, constant, signed, ramps, large mean, ties); grid-only runs where every running sum is exact and the tolerance does not grow with the position; selections (Highest/Lowest/Delta/Index/SMM/Past) and crossing/reversal detectors exact at every step of 2e6 (3e7)-step tie-heavy streams, i.e. thousands of crossings of the PeriodType capacity; long-lived vs fresh-primed instances at 1e3, 1e4 and every 1e5 steps; indicators at late positions against their reference values. The stated bound is the table of DESIGN 3.2.", "§4 C07"),
  "C08": ("runtime monitoring: metamorphic oracle (no reference) - constant input => constant output without drift; leading copies of the first element => same later outputs; for every method x every length and every indicator x generated configurations",
@@ -30,6 +34,8 @@ CHECKS = {
          "Exploration, exhaustive on the finite parameter axes: all 256 values of every single length parameter of every method and of every PeriodType field of every indicator, all 256^2 pairs for TSI and the reversal detectors (thorough; boundary-complete subset in quick), Conv weight lengths 0..=300, Renko sizes over specials, every float field over NaN/inf/0/tiny/huge/negative, every MA field over 15 kinds x boundary periods, 2000 (50000) random joint configurations per indicator, 20k (400k) arbitrary strings into the parsers. Outcome must be Ok or Err, Err where validate() is false or the length is documented too small; accepted instances must survive flat / zero-volume / grid / trending / 700-step monotone streams. Both the checked and the release profile are run because they differ exactly here.", "§4 C10"),
  "C11": ("runtime monitoring: interface-contract oracle over every indicator: result shape at every step, names, static-vs-dyn bit equality, set() round trip through the serialized configuration, unknown names / unparsable text, documented defaults parsed from the field docs",
          "Exploration: 36 indicators (+Example) x 12 (100) generated configurations x 300 (600) candles for shape/name/dyn equivalence; every public field (discovered from the serialized configuration) x 40 (2000) fresh values: set() must change exactly that key to exactly the parsed value; ~20 unparsable texts per field and ~150 (700) unknown names must return Err and leave the configuration unchanged; default configurations validate, initialise and equal the defaults stated in the field documentation.", "§4 C11"),
+ "C12": ("runtime monitoring: invariant monitors at the API boundary (ranges, band ordering, channel containment, SAR side, non-negativity, finiteness) with a fixed tolerance and no exemption, on regime streams aimed at running-sum residues",
+         "Exploration: the 15 indicators with documented ranges/orderings x 40 (400) configurations x 5 candle classes x 3 (10) streams whose exactly-flat stretches are longer than the largest period of the configuration, all other indicators for finiteness; LinearVolatility/StDev/MeanAbsDev/MedianAbsDev/TR >= -allowance and TSI, CLV in [-1,1] at every length. Tolerance 16 eps relative to the bound (plus the averaging stage's own allowance only where the property is containment of an average). Violations are classified by root cause: explained by a running-sum residue of the measured relative size, or not.", "§4 C12"),
  "C13": ("runtime monitoring: differential oracle original-vs-restored (serde through serde_json::Value and JSON text) at many snapshot points, plus adversarial mutation of every embedded window",
          "Exploration: every method x 12 (254) lengths x snapshot points after 0..=3n steps (every ring phase for small n, windowless ADI/Integral included) x continuation of 2n+50 steps bit-identical, re-serialization equality, text round trip; every indicator x 6 (60) configurations x 7 snapshot points; configuration round trips. Every {buf,index} object embedded in any method/indicator state is mutated 16 ways (index = len, len+1, MAX, >MAX; buffers of MAX, MAX+1, 1000 elements; wrong types; missing fields): malformed => Err, never a panic. Also run on the unsafe_performance build with the bounds hook.", "§4 C13"),
  "C14": ("runtime monitoring: definitional reference detectors vs the real ones, exhaustive short sequences over small alphabets + hostile long streams",
